@@ -13,6 +13,15 @@
    executions; every report is normalised to a function-pair signature.
 3. CTree.tla (the sequential meaning the histories are held to) is
    model-checked.
+4. CTreeLocks.tla - the per-node RWMutex protocol (hand-over-hand descent that
+   keeps the ancestors' read locks, reader->writer exchange with re-check,
+   deletes under the root write lock that lock every node they inspect, leaf
+   handle operations, Go's writer preference) - is model-checked for every
+   interleaving of 2-4 operations: the reachable content refines the abstract
+   map at every moment no delete is in flight, no conflicting unsynchronised
+   access, no deadlock, termination under fairness; four mutants of the protocol
+   (no re-check after the exchange, read lock released before descending, visitor
+   re-locking its leaf, delete without node locks) must each be refuted.
 """
 import json
 import os
@@ -23,6 +32,11 @@ import racelib
 
 PID = "C10"
 TIERS = {"quick": dict(n=1200, race_n=1500, shards=48, contend=40), "thorough": dict(n=40000, race_n=30000, shards=96, contend=600)}
+
+
+LOCK_CFGS = {"quick": ["none", "core3"], "thorough": ["none", "thorough", "core4"]}
+# seeded design errors of the lock protocol and the property each must violate
+LOCK_MUTANTS = {"no_recheck": "Refines", "early_release": "Refines", "visitor_value": "deadlock", "delete_no_node_locks": "NoRace"}
 
 
 def is_boundary(e):
@@ -37,6 +51,19 @@ def run(tier):
     drv_race = vlib.build_driver(race=True)
     outcome = vlib.Outcome(PID, tier)
     mc = vlib.model_check("CTreeMC.tla", "CTree_quick.cfg", os.path.join(work, "mc"), quiet_prefix='<<"STATE"')
+    # lock-level model: every interleaving of a few operations, refinement of the abstract map, race and deadlock freedom
+    lk = []
+    for cfg in LOCK_CFGS[tier]:
+        lk.append((cfg, vlib.model_check("CTreeLocksMC.tla", "CTreeLocks_%s.cfg" % cfg, os.path.join(work, "mc-locks-" + cfg), timeout=2400)))
+    lock_mutants = {}
+    for m in LOCK_MUTANTS:
+        r = vlib.model_check("CTreeLocksMC.tla", "CTreeLocks_%s.cfg" % m, os.path.join(work, "mc-locks-" + m), expect_violation=True)
+        lock_mutants[m] = ("deadlock" if "Deadlock reached" in r["out"] else
+                           "NoRace" if "Invariant NoRace is violated" in r["out"] else
+                           "Refines" if "Invariant Refines is violated" in r["out"] else "other")
+    for m, want in LOCK_MUTANTS.items():
+        if lock_mutants[m] != want:
+            raise vlib.Infra("CTreeLocks mutant %s was expected to violate %s, TLC reported %s" % (m, want, lock_mutants[m]))
 
     tr = os.path.join(work, "traces")
     d = vlib.drv_stats(vlib.run_driver(drv, ["ctree", "conc", "-n", str(T["n"]), "-contend", str(T["contend"]), "-out", tr, "-shards", str(T["shards"])]))
@@ -65,7 +92,8 @@ def run(tier):
     total, distinct = vlib.distinct_lines(files, trivial=lambda l: b'"reset"' in l)
     rc = outcome.finish()
     vlib.write_evidence(PID, tier, "model_checking", dict(
-        states=mc["distinct"], transitions=mc["generated"],
+        states=mc["distinct"] + sum(r["distinct"] for _, r in lk), transitions=mc["generated"] + sum(r["generated"] for _, r in lk),
+        lock_model={c: dict(distinct=r["distinct"], generated=r["generated"]) for c, r in lk}, lock_model_mutants=lock_mutants,
         traces_validated_against_impl=d.get("histories", 0) + dr.get("histories", 0),
         samples=vlib.sample_lines(files, 3, skip=lambda l: b'"reset"' in l or b'"inv"' in l),
         evaluations=stats["events"], distinct_nontrivial=distinct,
@@ -76,7 +104,8 @@ def run(tier):
              "race detector; distinct_nontrivial = distinct event lines other than reset" % (T["n"], T["contend"], T["race_n"]),
         exhaustive=False, undecided_histories=stats["undecided"], hangs=d.get("hangs", 0) + dr.get("hangs", 0), race_signatures=sorted(races), rejected=len(rejs),
         known_findings_hit=outcome.known, model_drift=0,
-        checker_cmd="tlc CTreeMC.tla; tlc CTreeLin.tla per shard (StateDeque, early exit); verifdrv-race ctree conc"),
+        checker_cmd="tlc CTreeMC.tla; tlc CTreeLocksMC.tla (configs %s; mutants %s must fail); tlc CTreeLin.tla per shard (StateDeque, early exit); verifdrv-race ctree conc"
+                    % (" ".join(LOCK_CFGS[tier]), " ".join(sorted(LOCK_MUTANTS)))),
         ["TLC and the TLA+ Json/IOUtils modules", "events are emitted under one mutex (file order = real-time order)",
          "the Go race detector reports only races that occur in the executions it monitors",
          "an operation outstanding for 10 s is a hang", "schedules are sampled, not enumerated"],
